@@ -69,6 +69,13 @@ def value_expr(view, acc, ty):
     if t == 'AppliedUpstream': return 'AppliedUpstream::Commit("abc123".to_string())', None
     return None, None
 
+def kind_of(acc, ty):
+    t = ty.replace(' ', '')
+    if 'Relations' in t: return 'relations'
+    if t.startswith('Vec<') and 'Checksum' in t: return 'triples'
+    if t in ('Vec<String>', '&[&str]'): return 'comma' if acc == 'uploaders' else 'space'
+    return 'scalar'
+
 def impl_blocks(path, name):
     src = open(path).read().split('\n')
     out, cur, depth = [], None, 0
@@ -81,6 +88,7 @@ def impl_blocks(path, name):
     return '\n'.join(out)
 
 bindings, skipped = [], []
+kinds = {}
 for view, path, impl, base, ctor in VIEWS:
     body = impl_blocks(path, impl)
     sigs = {}
@@ -96,13 +104,15 @@ for view, path, impl, base, ctor in VIEWS:
         val, clear = value_expr(view, acc, ty)
         if val is None: skipped.append((view, fn, args, 'unhandled type ' + ty)); continue
         bindings.append((view, ctor, base, acc, documented(view, acc), ty, val, clear))
+        kinds[(view, acc)] = kind_of(acc, ty)
 
 with open('/verif/harness/src/stages/acc_gen.rs', 'w') as o:
     o.write('// GENERATED by tools/gen_accessors.py - one binding per setter/getter pair of the lossless typed views.\n')
     o.write('use super::accessors::*;\n\n')
     o.write('pub fn bindings() -> Vec<Binding> {\n    let mut v: Vec<Binding> = vec![];\n')
     for view, ctor, base, acc, doc, ty, val, clear in bindings:
-        o.write('    v.push(Binding { view: "%s", accessor: "%s", field: "%s", base: %s, clears: %s,\n' % (view, acc, doc, repr(base).replace("'", '"'), 'true' if clear else 'false'))
+        o.write('    v.push(Binding { view: "%s", accessor: "%s", field: "%s", base: %s, clears: %s, kind: "%s",\n' % (view, acc, doc, repr(base).replace("'", '"'), 'true' if clear else 'false', kinds[(view, acc)]))
+        o.write('        get: Some(Box::new(|text: &str| with_%s(text, |x| (String::new(), norm(&x.%s()))).got)),\n' % (ctor, acc))
         o.write('        run: Box::new(|text: &str, clear: bool| with_%s(text, |x| {\n' % ctor)
         if clear:
             o.write('            if clear { x.set_%s(%s); return ("<none>".to_string(), norm(&x.%s())); }\n' % (acc, clear, acc))
@@ -115,6 +125,11 @@ with open('/verif/harness/src/stages/acc_gen.rs', 'w') as o:
     for ctor, bs in by_ctor.items():
         o.write('/// (accessor, documented field, has a clearing form) of the calls apply_%s knows, by index\n' % ctor)
         o.write('pub const CALLS_%s: &[(&str, &str, bool)] = &[%s];\n' % (ctor.upper(), ', '.join('("%s", "%s", %s)' % (b[3], b[4], 'true' if b[7] else 'false') for b in bs)))
+        o.write('/// every bound getter of the view, by accessor (a getter that panics on the present text reads "<panic>")\n')
+        o.write('pub fn snapshot_%s(x: &%s) -> Vec<(&\'static str, String)> {\n    vec![\n' % (ctor, VIEW_TYPES[ctor]))
+        for b in bs:
+            o.write('        ("%s", std::panic::catch_unwind(std::panic::AssertUnwindSafe(|| norm(&x.%s()))).unwrap_or_else(|_| "<panic>".to_string())),\n' % (b[3], b[3]))
+        o.write('    ]\n}\n')
         o.write('pub fn apply_%s(x: &mut %s, idx: usize, clear: bool) -> (String, String) {\n    match idx {\n' % (ctor, VIEW_TYPES[ctor]))
         for i, (view, c, base, acc, doc, ty, val, clr) in enumerate(bs):
             o.write('        %d => {\n' % i)
